@@ -171,7 +171,9 @@ def render_feature(shape, fidx=0, markers=False, indent="  ", blank=0, step_kw=(
                     emit(ind + indent * 2 + "| x |")
                     for r in range(ex["rows"]):
                         rid = "%s.r%d" % (xid, r)
-                        rtags = [t.replace("<x>", str(r)) for t in tags] + xtags
+                        # column placeholder <x> and the builder's own placeholders for the row
+                        rtags = [t.replace("<x>", str(r)).replace("<row.index>", str(r + 1)).replace("<examples.index>", str(j + 1))
+                                 .replace("<row.id>", "%d.%d" % (j + 1, r + 1)) for t in tags] + xtags
                         row = reg(Elem(rid, "row", emit(ind + indent * 2 + "| %d |" % r), rtags, o))
                         row.examples = x
                         row.own_steps = list(o.own_steps)
